@@ -94,36 +94,6 @@ fn map_into_portable_in_order() {
     assert!(unsafe { CALLS } == n as u32, "each element converted exactly once");
 }
 
-fn pool(k: u8) -> MetaType {
-    match k % 3 {
-        0 => MetaType::new::<u8>(),
-        1 => MetaType::new::<bool>(),
-        _ => MetaType::new::<PhantomData<u16>>(),
-    }
-}
-
-/// BOUNDED (<= 3 members from a pool of 3 types): TypeDefTuple::new drops exactly the PhantomData members, keeps order
-#[kani::proof]
-#[kani::unwind(6)]
-fn tuple_new_erases_phantom() {
-    let n: usize = kani::any();
-    kani::assume(n <= 3);
-    let mut v = Vec::new();
-    let mut expect = Vec::new();
-    let mut i = 0;
-    while i < n {
-        let k: u8 = kani::any();
-        kani::assume(k < 3);
-        v.push(pool(k));
-        if k != 2 {
-            expect.push(pool(k));
-        }
-        i += 1;
-    }
-    let t = TypeDefTuple::new(v);
-    assert!(t.fields == expect, "PhantomData members erased, the others kept in order");
-}
-
 /// COMPLETE for this pool (no symbolic input besides the selector): MetaType::new stores the identity,
 /// type_info calls the type's own type_info
 #[kani::proof]
